@@ -454,6 +454,13 @@ func c15Cases(th bool) []c15Case {
 			out = append(out, c15Case{Pos: "gzip", Level: 1, Min: 64, AE: "gzip", CType: "text/html", Size: sz, Payload: "text", Status: 200, Method: "GET", Writes: w})
 		}
 	}
+	// over the cap with other statuses: buffering is given up on the first write (alone over the
+	// cap) or on a later one; the recorded status must still be the one that goes out
+	for _, st := range []int{404, 201, 0} {
+		for _, w := range []int{1, 2} {
+			out = append(out, c15Case{Pos: "gzip", Level: 1, Min: 64, AE: "gzip", CType: "text/html", Size: gzipCap + 1, Payload: "text", Status: st, Method: "GET", Writes: w})
+		}
+	}
 	return out
 }
 
